@@ -46,7 +46,7 @@ pub(crate) enum SerializedEvolutionStep {
 
 const UNKNOWN: i32 = 0;
 const FIELD_MADE_OPTIONAL: i32 = -1;
-const FIELD_REMOVED: i32 = -2;
+pub(crate) const FIELD_REMOVED: i32 = -2;
 
 impl BinarySerializer for SerializedEvolutionStep {
     fn serialize<Output: BinaryOutput>(
